@@ -14,6 +14,29 @@ LENGTHS = {"a": 5, "b": 7, "c": 11, "d": 13, "e": 17, "t": 19}
 SUBSET_POS = {"a": [4, 0], "b": [6, 0, 3], "c": [10, 0, 5, 2], "d": [12, 0, 7, 3, 9, 1], "e": [16, 0, 8, 4, 12, 2, 10, 6]}
 
 
+UNIFORM_LENGTHS = {k: 3 for k in LENGTHS}
+UNIFORM_SUBSET_POS = {k: [2, 0] for k in SUBSET_POS}
+MODE = {"lengths": "distinct"}     # "uniform": all dimensions (and all selections) have the same length, so that a
+#                                    shape comparison cannot tell two dimensions apart (silent-transposition class)
+
+
+def in_length_mode(mode, thunk):
+    old = MODE["lengths"]
+    MODE["lengths"] = mode
+    try:
+        c = thunk()
+    finally:
+        MODE["lengths"] = old
+    if c is not None and hasattr(c, "inp") and mode != "distinct":
+        c.inp = dict(c.inp, lengths=mode)
+    return c
+
+
+def with_lengths(gen, mode):
+    for th in gen:
+        yield (lambda th=th: in_length_mode(mode, th))
+
+
 def lists_over(alpha):
     """all duplicate-free ordered lists over an alphabet"""
     out = [()]
@@ -25,6 +48,8 @@ def lists_over(alpha):
 class World:
     def __init__(self, prog: Program, taint_mode="abort"):
         self.prog = prog
+        self.lengths = dict(UNIFORM_LENGTHS if MODE["lengths"] == "uniform" else LENGTHS)
+        self.subset_pos = dict(UNIFORM_SUBSET_POS if MODE["lengths"] == "uniform" else SUBSET_POS)
         self.it = Interp(prog)
         self.it.taint_mode = taint_mode
         self.Dimension = prog.cls("Dimension")
@@ -34,7 +59,7 @@ class World:
 
     # ---- construction (through the analysed constructors and validators)
     def items(self, letter, n=None):
-        return [f"{letter}{j}" for j in range(n if n is not None else LENGTHS[letter])]
+        return [f"{letter}{j}" for j in range(n if n is not None else self.lengths[letter])]
 
     def dim(self, letter, n=None, fresh=False):
         if letter in self._dims and not fresh and n is None:
@@ -46,7 +71,7 @@ class World:
 
     def subdim(self, letter, positions=None, new_letter=None):
         base = self.items(letter)
-        pos = positions if positions is not None else SUBSET_POS[letter]
+        pos = positions if positions is not None else self.subset_pos[letter]
         return self.it.construct(self.Dimension, [], dict(name="sub" + letter, letter=new_letter or letter.upper(),
                                                           items=ItemList([base[p] for p in pos])))
 
